@@ -267,7 +267,7 @@ def replay_convert(prop, path, rp, work, seed):
         vh = vlib.build_harness(work, tags="verif vfs", overlay=ovf)
     else:
         vh = vlib.build_harness(work)
-    v, counts, dt, tw = convert_run(work, vh, lf, "replay", 1, 0, "dir,memdir" if crash else "dirro,memdir", crash, rp.get("seed", seed), prop)
+    v, counts, dt, tw = convert_run(work, vh, lf, "replay", 1, 0, "dir,memdir" if crash else "dirgc" if prop == "C06" else "dirro,memdir", crash, rp.get("seed", seed), prop)
     for x in v["fails"]:
         log("  %s, %s (fs call %d %s %s): clauses %s" % (x["store"], x["phase"], x["n"], x["fsop"], x["variant"], ",".join(sorted(x["clauses"]))))
     if v["fails"]:
@@ -534,7 +534,31 @@ def c06(prop, tier, seed, work):
                         # (the directory store itself runs with a policy under which the collection of its Close removes nothing)
                         cfg={"untagged": False, "dangling": False, "withSubj": False, "grace": True, "emptyRepo": False}))
     return histories(prop, tier, seed, work, scs, "", "a history is non-trivial if it runs at least one collection after at least one manifest push; distinct = distinct operation sequences",
-                     {"GC", "GCPass"})
+                     {"GC", "GCPass"}, extras=[c06_convert])
+
+
+def c06_convert(work, prop, tier, seed):
+    """Layouts written by another tool (spec/ConvertAbs.tla) in which nothing is tagged but the fallback tags, opened by a directory
+    store that collects untagged manifests, has no grace period and removes empty repositories: the first access is a collection
+    (it loads and converts the layout itself), then a second one (TraceConvert, Focus C06: gc.idem, gc.emptyrepo)."""
+    vh = vlib.build_harness(work)
+    res, layouts, lf = convert_layouts(work)
+    v, (nlay, events, images), dt, tw = convert_run(work, vh, lf, "c06", 1, 0, "dirgc", False, seed, "C06", pick=24 if tier == "quick" else 2)
+    log("convert layouts: %d of %d layouts on dirgc, %d events, %d failures (exec %.1fs, tlc %.1fs)" % (nlay, len(layouts), events, len(v["fails"]), dt, tw))
+    if v["stats"]["checked"] < nlay or nlay < 100:
+        raise Inconclusive("dirgc: only %d of %d events were judged" % (v["stats"]["checked"], nlay))
+    violations, seen = [], set()
+    for f in v["fails"]:
+        key = json.dumps([sorted(f["clauses"]), f["layout"]["fb"]], sort_keys=True)
+        if key in seen:
+            continue
+        seen.add(key)
+        path = vlib.save_replay(prop, "layout-%d-%s-%s" % (f["lid"], f["store"], f["phase"]), {"property": prop, "kind": "convert", "failure": f, "seed": seed})
+        violations.append((path, dict(f, trace="layout %d@%s" % (f["lid"], f["store"]), op="collect " + json.dumps(f["layout"]))))
+    return {"violations": violations, "events": events, "traces": nlay,
+            "note": "%d of the %d layouts of spec/ConvertAbs.tla written with nothing tagged but the fallback tags, first accessed by a collection of a directory store "
+                    "(untagged collection, no grace period, empty repositories removed), then collected again: judged by spec/TraceConvert.tla with Focus C06 "
+                    "(a second pass changes nothing below the root; a repository the collection emptied is removed)" % (nlay, len(layouts))}
 
 
 def c10(prop, tier, seed, work):
